@@ -39,6 +39,9 @@ class BasePickerModel(ABC):
         # if depth is too large
         if isinstance(depth, (int, np.integer)):
             depth = (depth, depth, depth)
+        # local maxima near the border of a chunk need their neighborhood
+        margin = self._get_search_margin(**kwargs)
+        depth = tuple(d + margin for d in depth)
         _depth = [min(s, d) for s, d in zip(image.shape, depth)]
         task: da.Array = image.map_overlap(
             self._pick_in_chunk_wrapped,
@@ -78,6 +81,10 @@ class BasePickerModel(ABC):
             pos[:, i] += start
 
         return np.array([[[MoleculesBox(pos, quats, features)]]], dtype=object)
+
+    def _get_search_margin(self, **kwargs) -> int:
+        """Additional overlap (pixel) needed to find local maxima at the chunk borders."""
+        return 0
 
     @abstractmethod
     def pick_in_chunk(
